@@ -157,4 +157,29 @@ __CPROVER_ensures((verif_exc == 0 && data->size < size) ==> (g_eof_seen || g_err
 __CPROVER_ensures((verif_exc == 0 && g_vk >= __CPROVER_old(g_pos) && g_vk < g_pos) ==> (uint8_t)data->data[g_vk - __CPROVER_old(g_pos)] == g_sval)
 __CPROVER_assigns(C14_SRC_ASSIGNS, data->size, __CPROVER_object_whole(data->data));
 
+/* ---- whole files: one read / one write of the full size, or an exception (never a truncated result) ----------------- */
+void phosg_load_file(vstr* data, const vstr* filename)
+C14_ENTRY C14_RET(data, (size_t)g_stat_size)
+__CPROVER_requires(g_stat_size >= 0 && (size_t)g_stat_size <= C14_MAXLEN)
+__CPROVER_ensures(verif_exc == 0 || verif_exc == EXC_cannot_open_file || verif_exc == EXC_runtime_error)
+__CPROVER_ensures(verif_exc == 0 ==> (data->size == (size_t)g_stat_size && g_chunk == g_stat_size && g_pos == __CPROVER_old(g_pos) + data->size))
+__CPROVER_ensures((verif_exc == 0 && g_vk >= __CPROVER_old(g_pos) && g_vk < g_pos) ==> (uint8_t)data->data[g_vk - __CPROVER_old(g_pos)] == g_sval)
+__CPROVER_assigns(C14_SRC_ASSIGNS, data->size, __CPROVER_object_whole(data->data));
+
+void phosg_save_file(const vstr* filename, const void* data, size_t size)
+C14_ENTRY
+__CPROVER_requires(size <= C14_MAXLEN)
+__CPROVER_requires(__CPROVER_is_fresh(data, size))
+__CPROVER_ensures(verif_exc == 0 || verif_exc == EXC_cannot_open_file || verif_exc == EXC_runtime_error)
+__CPROVER_ensures(verif_exc == 0 ==> (g_chunk >= 0 && (size_t)g_chunk == size && g_wpos == __CPROVER_old(g_wpos) + size))
+__CPROVER_ensures((verif_exc == 0 && g_vk >= __CPROVER_old(g_wpos) && g_vk < g_wpos) ==> g_wval == C14_U8(data)[g_vk - __CPROVER_old(g_wpos)])
+__CPROVER_assigns(C14_SINK_ASSIGNS);
+
+void phosg_save_file_str(const vstr* filename, const vstr* data)
+C14_ENTRY C14_INSTR(data)
+__CPROVER_ensures(verif_exc == 0 || verif_exc == EXC_cannot_open_file || verif_exc == EXC_runtime_error)
+__CPROVER_ensures(verif_exc == 0 ==> (g_chunk >= 0 && (size_t)g_chunk == data->size && g_wpos == __CPROVER_old(g_wpos) + data->size))
+__CPROVER_ensures((verif_exc == 0 && g_vk >= __CPROVER_old(g_wpos) && g_vk < g_wpos) ==> g_wval == (uint8_t)data->data[g_vk - __CPROVER_old(g_wpos)])
+__CPROVER_assigns(C14_SINK_ASSIGNS);
+
 #endif
